@@ -450,7 +450,7 @@ fn plans(prop: &str, th: bool) -> Vec<Plan> {
 pub fn check(prop: &str, tier: &str) -> i32 {
     let rep = Reporter::new(prop, tier);
     let th = rep.thorough();
-    let deadline = Some(Instant::now() + Duration::from_secs(if th { 1500 } else { 45 }));
+    let deadline = Some(Instant::now() + Duration::from_secs(cap_secs(if th { 1500 } else { 45 })));
     let focus = [match prop { "C06" => "C06", "C07" => "C07", "C08" => "C08", "C12" => "C12", "C13" => "C13", _ => "C20" }];
     let mut plans = plans(prop, th);
     // diagnostic only: VERIF_DD_ONLY=<family> restricts the run to one family, completely enumerated
@@ -511,7 +511,7 @@ pub fn check(prop: &str, tier: &str) -> i32 {
             bp.push(mk("TM-N3.0irr", variants_irr(), true, None));
             bp.push(mk("TM-B4irr", variants_irr(), true, Some(if th { 300_000 } else { 30_000 })));
         }
-        let dl = Some(Instant::now() + Duration::from_secs(if th { 600 } else { 20 }));
+        let dl = Some(Instant::now() + Duration::from_secs(cap_secs(if th { 600 } else { 20 })));
         let (agg, sc, ok) = crate::bnb::run_plans(&rep, &[prop], &bp, dl);
         cov["solver_runs_part"] = json!({"scopes": sc, "complete": ok, "runs": agg.runs, "runs_with_2+_subproblems": agg.nontrivial, "restricted_compilations": agg.restricted, "relaxed_compilations": agg.relaxed, "merges": agg.merges, "relax_calls": agg.relax_calls, "layers_checked_for_width": agg.layers_checked, "monitor_hits_all_properties": agg.monitor_hits});
         if !ok { cov["exhaustive"] = json!(false); }
